@@ -228,6 +228,18 @@ var specs = map[string]spec{
 		},
 		Assumptions: commonAssumptions, Plain: true, QuickStride: 6, ThoroughStride: 6, QuickDeadline: 500, ThoroughDeadline: 3000,
 	},
+	"C11": {
+		LevelText: "bounded exhaustive enumeration of messages (bodies of <=3 parts over 14 text/html/print/call parts with colliding placeholder names, in a plain template, in a loop and in a called template; 26 plurals with {case 1}/{default}) pushed through the real pipeline: the xgettext-soy binary built from the current tree extracts them, its output is parsed as PO, catalogues are filled (identity, placeholders reversed, text segments marked, every proper subset of a 3-message bundle) for locales with 1, 2 and 3 plural forms, loaded through pomsg.Load, and rendered by the Go renderer and by the generated JavaScript in otto; the output is compared with the translation's parts substituted by each placeholder's own rendering",
+		LevelNote: "each placeholder's live value is obtained by rendering the placeholder's source alone (those renders are the subject of C01/C02); PO restricts plurals to {case 1}+{default}; JS comparison on ASCII data",
+		Technique: "bounded exhaustive enumeration of messages x catalogues x locales x data through the real extractor, loader and both renderers",
+		Level:     "model_checking",
+		Rule:      "a state is a group of three generated messages (one bundle, one extractor run); transitions = renders with a catalogue (counter renders); every group is non-trivial",
+		Bounds: map[string]string{
+			"quick":    "message bodies of <=3 parts over 14 parts (+ call and meaning variants for 2-part bodies), 26 plurals; 3+7 catalogues x 3 locales x 4 data sets each",
+			"thorough": "same",
+		},
+		Assumptions: commonAssumptions, Plain: true, QuickStride: 8, ThoroughStride: 8, QuickDeadline: 500, ThoroughDeadline: 3000,
+	},
 	"C05": {
 		LevelText: "bounded exhaustive exploration of the real parser: every input of the stated small scopes is parsed under a controlled scheduler with a deterministic linear fuel bound (no wall clock), and small inputs under every parser/scanner interleaving up to 2 preemptions; termination, no panic, no deadlock and tree-xor-error are checked on every execution and every case is replayed on the uninstrumented build",
 		LevelNote: "assumes the bounded scopes are representative (small-scope hypothesis) and that the overlay instrumentation preserves behaviour (cross-checked case by case against the plain build)",
